@@ -23,7 +23,7 @@ Definition ex_fw : fworld :=
 Definition ex_flavors : list str := [lit "Linux64"; lit "generic"].
 
 Definition ex_cfg_keep : Setup.config :=
-  {| c_flavor := lit "Linux64"; c_root := lit "/s"; c_max_depth := None; c_keep := true |}.
+  {| c_flavor := lit "Linux64"; c_root := lit "/s"; c_max_depth := None; c_keep := true; c_flavors := [] |}.
 
 (* the VRO of a plain request and of a request with --keep, as selectVRO makes them from the shipped
    configuration (Generated/Config.v) *)
